@@ -230,6 +230,11 @@ func run(id, tier string) int {
 			continue
 		}
 		reported[v.Finding] = true
+		if v.Finding == "panic@unknown" {
+			// a panic whose stack holds no frame of the library is the harness's own: never reported as a property violation
+			fmt.Fprintf(os.Stderr, "HARNESS-ERROR: case %q panicked outside the library:\n%s\n", v.Case, tail(v.Detail, 1500))
+			return 2
+		}
 		// confirm determinism: re-run the single case twice in fresh processes
 		if !strings.HasPrefix(v.Finding, "worker-crash") && os.Getenv("VERIF_NO_CONFIRM") == "" {
 			ok := 0
